@@ -26,6 +26,13 @@ BadOptCall(np) == /\ status = "ready" /\ Len(verts) >= 1
                   /\ verts' = [i \in DOMAIN verts |-> [verts[i] EXCEPT !.pose = np[i]]]
                   /\ obs' = [op |-> "OptCall", rep |-> Outcome([k \in 1..1 |-> FALSE], 0, 1)] /\ UNCHANGED <<edges, status>>
 MutantSpec == Init /\ [][MCNext \/ \E np \in [DOMAIN verts -> Tokens] : BadOptCall(np)]_vars
+\* second model mutant: a "query" that writes a pose must violate PosesRule (and QueriesPure); third: an edit of a measurement that renames a
+\* vertex must violate StructureFrozen
+BadQuery == /\ status = "ready" /\ Len(verts) >= 1 /\ verts' = [verts EXCEPT ![1].pose = 1 - @] /\ obs' = [op |-> "calc_chi2"] /\ UNCHANGED <<edges, status>>
+Mutant2Spec == Init /\ [][MCNext \/ BadQuery]_vars
+BadSetMeas == /\ status = "ready" /\ Len(edges) >= 1 /\ edges' = [edges EXCEPT ![1].vids = <<2, 1>>, ![1].num = 1] /\ edges'[1] # edges[1]
+              /\ obs' = [op |-> "SetMeas"] /\ UNCHANGED <<verts, status>>
+Mutant3Spec == Init /\ [][MCNext \/ BadSetMeas]_vars
 \* the report of every optimizer call is a legal outcome: between 1 and maxIter iterations, entries = iterations (+1 on early stop)
 ReportShape == obs.op = "OptCall" => /\ obs.rep.numIter >= 1 /\ obs.rep.lenResults \in {obs.rep.numIter, obs.rep.numIter + 1}
                                      /\ (obs.rep.lenResults = obs.rep.numIter + 1 => obs.rep.converged /\ ~obs.rep.lastComplete)
